@@ -568,6 +568,7 @@ pub fn run(rep: &'static Report) {
     cli_file_input_position(rep);
     cli_same_inode_rss(rep);
     cli_trickle(rep);
+    cli_merged_stdio(rep);
     rep.set_exhaustive(true);
 }
 
@@ -1038,6 +1039,109 @@ fn cli_trickle(rep: &Report) {
         }
     });
     rep.extra("cli_trickle", json!({"pieces":N,"piece_bytes":PIECE,"commands":4}));
+}
+
+/// stdout and stderr are one and the same pipe (`kestrel ... 2>&1 | consumer`, or a supervisor that hands one pipe to both):
+/// 16 MiB of input on stdin in 64 KiB pieces, stdin kept open afterwards: before stdin is closed the pipe has delivered all
+/// but the last 4 MiB of the output (status text included in the count), so output is incremental in this wiring too.
+fn cli_merged_stdio(rep: &Report) {
+    use rayon::prelude::*;
+    use std::os::unix::io::FromRawFd;
+    use std::process::{Command, Stdio};
+    use std::sync::atomic::{AtomicUsize, Ordering};
+    use std::sync::Arc;
+    let seed = rep.seed;
+    let total: usize = 16 << 20;
+    let salt = derive32(seed, "c11-merged-salt");
+    let pkey = r::pass_key(b"clipw", &salt);
+    let jobs = ["pass-encrypt", "pass-decrypt"];
+    jobs.par_iter().for_each(|name| {
+        rep.eval(1);
+        rep.nontrivial(format!("cli-merged-stdio-{}", name).as_bytes());
+        let attempt = || -> Result<(), String> {
+            let sc = Scratch::new();
+            let mut fds = [0i32; 2];
+            if unsafe { libc::pipe2(fds.as_mut_ptr(), libc::O_CLOEXEC) } != 0 {
+                return Err("MACHINERY: pipe2".into());
+            }
+            let w2 = unsafe { libc::dup(fds[1]) };
+            let args: Vec<&str> = if *name == "pass-encrypt" { vec!["password", "encrypt", "--env-pass"] } else { vec!["password", "decrypt", "--env-pass"] };
+            let mut c = Command::new(KESTREL);
+            c.args(&args).env_clear().env("KESTREL_PASSWORD", "clipw").current_dir(&sc.0).stdin(Stdio::piped());
+            unsafe {
+                c.stdout(Stdio::from_raw_fd(fds[1]));
+                c.stderr(Stdio::from_raw_fd(w2));
+            }
+            let mut child = c.spawn().map_err(|e| format!("spawn: {}", e))?;
+            drop(c);
+            let mut rd = unsafe { std::fs::File::from_raw_fd(fds[0]) };
+            let got = Arc::new(AtomicUsize::new(0));
+            let g2 = got.clone();
+            let reader = std::thread::spawn(move || {
+                let mut buf = vec![0u8; 1 << 16];
+                loop {
+                    match rd.read(&mut buf) {
+                        Ok(0) | Err(_) => break,
+                        Ok(n) => {
+                            g2.fetch_add(n, Ordering::SeqCst);
+                        }
+                    }
+                }
+            });
+            let mut si = child.stdin.take().unwrap();
+            // input: plaintext, or a conforming ciphertext generated record by record
+            let mut sent_plain = 0usize;
+            if *name == "pass-encrypt" {
+                let mut buf = vec![0u8; 1 << 16];
+                while sent_plain < total {
+                    for (k, b) in buf.iter_mut().enumerate() {
+                        *b = pbyte(sent_plain + k);
+                    }
+                    if si.write_all(&buf).is_err() {
+                        break;
+                    }
+                    sent_plain += buf.len();
+                }
+            } else {
+                let mut hdr = r::PASS_MAGIC.to_vec();
+                hdr.extend_from_slice(&salt);
+                let _ = si.write_all(&hdr);
+                let n = total / CS;
+                for i in 0..n {
+                    let p: Vec<u8> = (0..CS).map(|k| pbyte(i * CS + k)).collect();
+                    // never the last record: the stream stays open
+                    if si.write_all(&r::seal_conforming(&pkey, &r::PASS_MAGIC, i as u64, false, &p).bytes()).is_err() {
+                        break;
+                    }
+                    sent_plain += CS;
+                }
+            }
+            let _ = si.flush();
+            let need = sent_plain.saturating_sub(4 << 20);
+            let t0 = std::time::Instant::now();
+            while got.load(Ordering::SeqCst) < need && t0.elapsed().as_millis() < 6000 {
+                std::thread::sleep(std::time::Duration::from_millis(10));
+            }
+            let have = got.load(Ordering::SeqCst);
+            drop(si);
+            let _ = child.wait();
+            let _ = reader.join();
+            if have < need {
+                return Err(format!("with {} MiB delivered on stdin (still open), the pipe shared by stdout and stderr had carried {} bytes; at least {} were due", sent_plain >> 20, have, need));
+            }
+            Ok(())
+        };
+        match attempt() {
+            Ok(()) => {}
+            Err(e) if e.starts_with("MACHINERY") => crate::report::machinery(&e),
+            Err(_) => {
+                if let Err(e) = attempt() {
+                    rep.violation(&format!("cli-merged-stdio/{}", name), json!({"kind":"cli-stall","cmd":name,"merged":true}), format!("kestrel {} with stdout and stderr on one pipe: {}", name, e));
+                }
+            }
+        }
+    });
+    rep.extra("cli_merged_stdio", json!({"input_mib":16,"commands":2}));
 }
 
 fn cli_level(rep: &Report) {
